@@ -45,8 +45,14 @@ func exposed(name string, private bool) string {
 }
 
 // checkSchema generates the schema and verifies every expectation. It returns the number of constants verified.
+// genOverride, when set, produces the generated source instead of fe.Gen (schemas spread over several files).
+var genOverride func(opt int) ([]byte, string, error)
+
 func checkSchema(run *vlib.Run, class, schema string, opt int, exps []expectation) int {
 	src, phase, err := fe.Gen(schema, opt, "p")
+	if genOverride != nil {
+		src, phase, err = genOverride(opt)
+	}
 	c := map[string]any{"schema": schema, "options": opt, "class": class}
 	if err != nil {
 		// an accepted-looking schema was rejected: not a C15 matter unless it is one of our well-formed inputs
@@ -207,7 +213,9 @@ func combine(op string, a, b expr, lo, hi *big.Int, width uint) expr {
 	case "&":
 		v.And(a.val, b.val)
 	case "<<", ">>":
-		if b.val.Sign() < 0 || b.val.Cmp(big.NewInt(int64(width))) >= 0 {
+		// a negative count is an error; a left shift by the width or more cannot fit; a RIGHT shift by the width or more is
+		// exact like any other (0 for non-negative values, -1 for negative ones in a signed base type)
+		if b.val.Sign() < 0 || (op == "<<" && b.val.Cmp(big.NewInt(int64(width))) >= 0) || b.val.Cmp(big.NewInt(4096)) >= 0 {
 			e.fits = false
 			e.val = big.NewInt(0)
 			return e
@@ -309,6 +317,37 @@ func main() {
 		states++
 		trans++
 		consts += int64(checkSchema(run, "const|all-in-one-file", sb.String(), 0, exps))
+	}
+	// consts, enum members and opcodes that live in an IMPORTED file, generated in combined mode: they are part of the
+	// generated package like the root's own (the imports the const block needs must follow them)
+	{
+		dep := "const float64 depInf = inf;\nconst float32 depNegInf = -inf;\nconst float64 depNan = nan;\nconst int64 depInt = -9223372036854775808;\nconst string depStr = \"ms\\t\\\"wall\\\"\";\nconst guid depGuid = \"e215a946-b26f-4567-a276-13136f0a1708\";\nenum DepLevel : uint8 {\n\tLow = 1;\n\tHigh = 255;\n}\n[opcode(\"DEPS\")]\nstruct DepRec {\n\tint32 x;\n}\n"
+		for _, root := range []struct{ name, text string }{
+			{"root-with-own-consts", "import \"dep.bop\"\nconst int32 rootInt = 3;\nconst float64 rootFloat = 1.5;\nstruct Root {\n\tDepLevel l;\n}\n"},
+			{"root-without-consts", "import \"dep.bop\"\nstruct Root {\n\tDepLevel l;\n\tDepRec r;\n}\n"},
+			{"root-with-own-inf", "import \"dep.bop\"\nconst float64 rootInf = inf;\nstruct Root {\n\tint32 x;\n}\n"},
+		} {
+			for _, opt := range []int{0, 2} {
+				exps := []expectation{
+					{goName: exposed("depInf", opt == 2), special: "inf", what: "imported const float64 = inf"},
+					{goName: exposed("depNegInf", opt == 2), special: "-inf", what: "imported const float32 = -inf"},
+					{goName: exposed("depNan", opt == 2), special: "nan", what: "imported const float64 = nan"},
+					{goName: exposed("depInt", opt == 2), val: mkInt("-9223372036854775808"), what: "imported const int64 = min"},
+					{goName: exposed("depStr", opt == 2), val: constant.MakeString("ms\t\"wall\""), what: "imported const string with escapes"},
+					{goName: exposed("DepLevel", opt == 2) + "_High", val: mkInt("255"), typ: exposed("DepLevel", opt == 2), under: "uint8", what: "imported enum member High = 255"},
+					{goName: exposed("DepRec", opt == 2) + "OpCode", val: mkInt("1397769540"), what: "imported opcode \"DEPS\" as little-endian u32"},
+				}
+				rootText := root.text
+				genOverride = func(o int) ([]byte, string, error) {
+					return fe.GenFiles(map[string]string{"root.bop": rootText, "dep.bop": dep}, "root.bop", o, "p", true)
+				}
+				states++
+				trans++
+				consts += int64(checkSchema(run, "const|combined-import|"+root.name, "// root.bop\n"+rootText+"// dep.bop\n"+dep, opt, exps))
+				genOverride = nil
+				outcomes.Add("combined-import|" + root.name)
+			}
+		}
 	}
 
 	// ---- 2. enums over every base type -----------------------------------------------------------------
